@@ -181,3 +181,65 @@ func inDeep(fn, g *ssa.Function) bool {
 	}
 	return false
 }
+
+// CallerValue resolves a parameter of a transparent helper with a single call site to the argument
+// passed there (repeatedly); any other value is returned unchanged.
+func CallerValue(v ssa.Value) ssa.Value {
+	for d := 0; d < 4; d++ {
+		p, ok := v.(*ssa.Parameter)
+		if !ok {
+			return v
+		}
+		f := p.Parent()
+		if !Transparent(f) || len(helperSites[f]) != 1 {
+			return v
+		}
+		idx := -1
+		for i, q := range f.Params {
+			if q == p {
+				idx = i
+			}
+		}
+		args := helperSites[f][0].Call.Args
+		if idx < 0 || idx >= len(args) {
+			return v
+		}
+		v = args[idx]
+	}
+	return v
+}
+
+// SiteValues resolves a parameter of a transparent helper to the arguments passed at each of its call
+// sites (recursively through nested helpers); any other value is returned as the only element. Rules
+// that judge the shape of a value use it to judge a helper's parameter once per call site.
+func SiteValues(v ssa.Value) []ssa.Value {
+	var out []ssa.Value
+	var walk func(v ssa.Value, d int)
+	walk = func(v ssa.Value, d int) {
+		p, ok := v.(*ssa.Parameter)
+		if !ok || d > 3 {
+			out = append(out, v)
+			return
+		}
+		f := p.Parent()
+		if !Transparent(f) {
+			out = append(out, v)
+			return
+		}
+		idx := -1
+		for i, q := range f.Params {
+			if q == p {
+				idx = i
+			}
+		}
+		for _, cs := range helperSites[f] {
+			if idx >= 0 && idx < len(cs.Call.Args) {
+				walk(cs.Call.Args[idx], d+1)
+			} else {
+				out = append(out, v)
+			}
+		}
+	}
+	walk(v, 0)
+	return out
+}
